@@ -170,6 +170,16 @@ func init() {
 			{Name: "universe-pairs", Exhaustive: true, Count: func(core.Tier) int { return universeN() * universeN() }, Run: func(c *core.Ctx, idx int) {
 				judgeMerge(c, jp.MergePatch, "", universe[idx/len(universe)], universe[idx%len(universe)])
 			}},
+			{Name: "deep-documents-and-patches", Exhaustive: true, Count: func(core.Tier) int { return len(deepDepths) * 2 }, Run: func(c *core.Ctx, idx int) {
+				d := deepDepths[idx/2]
+				doc := deepWrap(d, `{"keep":1,"drop":2,"chg":3,"o":{"x":1,"y":[1]}}`)
+				pat := deepWrap(d, `{"drop":null,"chg":4,"o":{"y":null,"n":{"m":null,"v":1}},"new":[1]}`)
+				if idx%2 == 1 {
+					pat = deepWrap(d/2+1, `[1,{"a":null}]`) // replaces everything below the middle
+				}
+				judgeMerge(c, jp.MergePatch, "", doc, pat)
+				c.Count("deep:cases")
+			}},
 			{Name: "derived-patches", Count: n(60000, 6000000), Run: func(c *core.Ctx, idx int) {
 				docT := prof.Any(c.R)
 				if idx%5 != 0 {
